@@ -20,6 +20,7 @@ type frame struct {
 type havocRec struct {
 	prefix string
 	epoch  int
+	keep   func(string) bool
 }
 
 // ---------- control flow ----------
@@ -115,7 +116,7 @@ func (s *State) enterLoop(b *ssa.BasicBlock, n int, phis []*ssa.Phi) {
 	}
 	keys, all := c.loopMods(b)
 	if all {
-		s.havocAll(fmt.Sprintf("loop %d of %s calls code with unknown effects", n, c.name))
+		s.havocCall(fmt.Sprintf("loop %d of %s calls code with unknown effects", n, c.name), c.loopUnkPkgs, c.loopUnkFuncArg)
 	} else {
 		for _, k := range keys {
 			s.havocPrefix(k)
@@ -162,7 +163,7 @@ func (s *State) havocPrefix(prefix string) {
 		}
 	}
 	s.c.eng.epochCtr++
-	s.havocs = append(append([]havocRec(nil), s.havocs...), havocRec{prefix, s.c.eng.epochCtr})
+	s.havocs = append(append([]havocRec(nil), s.havocs...), havocRec{prefix, s.c.eng.epochCtr, nil})
 }
 
 func (s *State) runFrom(b *ssa.BasicBlock, i int) {
@@ -298,7 +299,7 @@ func (s *State) callResolved(site ssa.Instruction, cc *ssa.CallCommon, fnv Val, 
 			s.applyContract(site, key, con, nil, append([]Val{recv}, args...), sig, k)
 			return
 		}
-		s.havocAll("interface method " + key + " has no contract")
+		s.havocCall("interface method "+key+" has no contract", eng.ifacePkgs(recv.T), hasFuncArg(args))
 		k(s, s.freshResults(sig, "inv_"+cc.Method.Name()))
 		return
 	}
@@ -358,7 +359,7 @@ func (s *State) callResolved(site ssa.Instruction, cc *ssa.CallCommon, fnv Val, 
 		k(s, s.freshResults(sig, "ext"))
 		return
 	}
-	s.havocAll("callee " + full + " has neither contract nor inlinable body")
+	s.havocCall("callee "+full+" has neither contract nor inlinable body", []*types.Package{fnPkg(callee)}, hasFuncArg(args))
 	k(s, s.freshResults(sig, "hv"))
 }
 
@@ -703,6 +704,19 @@ func (s *State) frameCheckLoc(site ssa.Instruction, l frameLoc) {
 func (c *FnCtx) loopMods(h *ssa.BasicBlock) ([]string, bool) {
 	set := map[string]bool{}
 	all := false
+	c.loopUnkPkgs = nil
+	c.loopUnkFuncArg = false
+	unk := func(pkgs []*types.Package, cc *ssa.CallCommon) {
+		all = true
+		c.loopUnkPkgs = append(c.loopUnkPkgs, pkgs...)
+		if cc != nil {
+			for _, a := range cc.Args {
+				if kindOf(a.Type()) == kFunc {
+					c.loopUnkFuncArg = true
+				}
+			}
+		}
+	}
 	seen := map[*ssa.Function]bool{}
 	var scanFn func(fn *ssa.Function)
 	var scanInstr func(in ssa.Instruction)
@@ -781,7 +795,7 @@ func (c *FnCtx) loopMods(h *ssa.BasicBlock) ([]string, bool) {
 				if con, ok := c.eng.contracts.Funcs[key]; ok && con.HasAssign && len(con.Assigns) == 0 {
 					return
 				}
-				all = true
+				unk(c.eng.ifacePkgs(cc.Value.Type()), cc)
 				return
 			}
 			callee := cc.StaticCallee()
@@ -829,7 +843,7 @@ func (c *FnCtx) loopMods(h *ssa.BasicBlock) ([]string, bool) {
 			if c.eng.pureExternal(full) {
 				return
 			}
-			all = true
+			unk([]*types.Package{fnPkg(callee)}, cc)
 		}
 	}
 	scanFn = func(fn *ssa.Function) {
@@ -894,4 +908,23 @@ func (c *FnCtx) assignKeys(e Expr, callee *ssa.Function) ([]string, bool) {
 		}
 	}
 	return nil, true
+}
+
+func hasFuncArg(args []Val) bool {
+	for _, a := range args {
+		if kindOf(a.T) == kFunc {
+			return true
+		}
+	}
+	return false
+}
+
+func fnPkg(fn *ssa.Function) *types.Package {
+	if p := pkgOf(fn); p != nil {
+		return p.Pkg
+	}
+	if fn.Object() != nil {
+		return fn.Object().Pkg()
+	}
+	return nil
 }
